@@ -1,9 +1,21 @@
 #!/bin/bash
 # the seed matrix without touching /repo: every seeded change is applied in its own scratch worktree (tools/seed_run_wt.sh) and the
-# quick check of its property runs against that tree; several seeds at a time.  usage: VERIF_SEED=2 tools/seed_matrix_wt.sh [jobs]
+# quick check of its property runs against that tree (VERIF_REPO); several seeds at a time.  Writes seeded/RESULTS.md unless
+# RESULTS=path is given.   usage: [VERIF_SEED=n] [RESULTS=file] tools/seed_matrix_wt.sh [jobs]
 cd /verif
 jobs=${1:-3}
+out=${RESULTS:-seeded/RESULTS.md}
+tmp=$(mktemp)
 ls seeded | grep -E '^C[0-9]{2}_[a-z]$' | while read name; do
-  grep -q obsolete_since seeded/$name/meta.json && { echo "== $name obsolete" >&2; continue; }
+  grep -q obsolete_since seeded/$name/meta.json && { echo "== $name vs ${name%%_*}: obsolete (neutralised by a later fix, see meta.json)" >> $tmp; continue; }
   echo $name
-done | xargs -P $jobs -I{} sh -c 'n={}; tools/seed_run_wt.sh $n ${n%%_*} 2>&1 | grep "^== "' | sort
+done | xargs -P $jobs -I{} sh -c 'n={}; r=$(tools/seed_run_wt.sh $n ${n%%_*} 2>&1 | grep -E "^== |cannot apply|worktree failed"); echo "${r:-== $n vs ${n%%_*}: no result}"' >> $tmp
+{
+  echo "Seeded changes against the quick check of their own property (VERIF_SEED=${VERIF_SEED:-1}; each change applied in a scratch worktree, checks run with VERIF_REPO pointing at it; /repo HEAD $(git -C /repo log --format=%h -1))."
+  echo
+  echo "| seed | own check (quick) |"
+  echo "|---|---|"
+  sort $tmp | sed -E 's/^== ([A-Z0-9_a-z]+) vs [A-Z0-9]+: (.*)$/| \1 | \2 |/'
+} > $out
+rm -f $tmp
+grep -c "exit=1" $out
